@@ -125,6 +125,38 @@ Theorem C01_boundary_column_reads :
   end.
 Proof. exact boundary_column_reads. Qed.
 
+(* ---- read_denotes at line level: reader = format on EVERY classified line; section split ---- *)
+Theorem C01_read_bpm_denotes : forall l, is_timing_point l = true -> effects_01 l ->
+  denote_tp l = option_map TPBpm (read_bpm l).
+Proof. exact read_bpm_denotes. Qed.
+Theorem C01_read_sv_denotes : forall l, is_slider_velocity l = true -> effects_01 l -> meter_numeric l ->
+  denote_tp l = option_map TPSv (read_sv l).
+Proof. exact read_sv_denotes. Qed.
+Theorem C01_read_hit_denotes : forall l k, is_hit l = true ->
+  forall f0 f1 f2 f3 f4 ps, split_on COMMA l = [f0; f1; f2; f3; f4; ps] ->
+  strip ps = ps -> length (split_on COLON ps) = 5%nat ->
+  (exists y, py_int f1 = Some y) ->
+  (exists ty, py_int f3 = Some ty /\ Z.testbit ty 7 = false /\ Z.testbit ty 0 = true) ->
+  denote_ho k l = option_map HHit (read_hit l k).
+Proof. exact read_hit_denotes. Qed.
+Theorem C01_read_hold_denotes : forall l k, is_hold l = true ->
+  forall f0 f1 f2 f3 f4 ps, split_on COMMA l = [f0; f1; f2; f3; f4; ps] ->
+  strip ps = ps -> length (split_on COLON ps) = 6%nat ->
+  (exists y, py_int f1 = Some y) ->
+  (exists ty, py_int f3 = Some ty /\ Z.testbit ty 7 = true) ->
+  denote_ho k l = option_map HHold (read_hold l k).
+Proof. exact read_hold_denotes. Qed.
+Theorem C01_section_split : forall pre tps hos,
+  ~ In TP_HEADER pre -> ~ In HO_HEADER pre -> ~ In HO_HEADER tps ->
+  (forall l, In l tps -> is_header l = false) -> (forall l, In l hos -> is_header l = false) ->
+  let lines := pre ++ TP_HEADER :: tps ++ HO_HEADER :: hos in
+  exists ix_tp ix_ho,
+    index_of TP_HEADER lines = Some ix_tp /\ index_of HO_HEADER lines = Some ix_ho /\
+    py_slice_to lines ix_tp = pre /\
+    py_slice lines (ix_tp + 1) ix_ho = tps /\ py_slice_from lines (ix_ho + 1) = hos /\
+    section TP_HEADER lines = Some tps /\ section HO_HEADER lines = Some hos.
+Proof. exact section_split. Qed.
+
 (* ---- text library facts the codec theorems rest on ---- *)
 Theorem C01_int_codec : forall z, py_int (show_int z) = Some z.
 Proof. exact py_int_show_int. Qed.
